@@ -236,6 +236,9 @@ def instances(tier):
                         by_solver=s <= 1, budget=bs))
         out.append(dict(id="%s-step-diag2" % n, cls=n, kind="step", system="diag", shape=[2], steps=1, by_solver=s <= 1, norm_by_solver=s <= 1,
                         budget=bs))
+        if s <= (1 if not thorough else 2):
+            # the full __call__: first stage solve reported as failed, the retry solved exactly - the ACCEPTED step must still not grow |y|
+            out.append(dict(id="%s-call-retry-scalar" % n, cls=n, kind="call_retry", shape=[1], budget=bs))
     return out
 
 
@@ -606,9 +609,53 @@ def _scn_step(c, inst, d):
         tt, yy = tt + dT, y1
 
 
+def _scn_call_retry(c, inst, d):
+    """real RungeKuttaIntegrator.__call__ on y' = lam*y, lam real, h*lam <= 0, h of either sign: the first stage solve comes back failed
+    (arbitrary iterate), the retried one is the exact root of the real residual; the accepted step must not increase |y|"""
+    import desolver.utilities.optimizer as opt
+    from checks.common import ctrl_stub
+    cls = _get_cls(inst["cls"])
+    t, h, lam = c.real("t"), c.real("h"), c.real("lam")
+    c.assume(h != 0)
+    c.assume(h * lam <= 0)
+    y = c.array([c.real("y0")])
+    st, integ = run(_mk, c, cls, (1,))
+    if st != "ok":
+        c.check("c11.call.constructs", False, info=repr(integ))
+        return
+    integ.update_timestep = ctrl_stub(c, integ, fixed=1.0)
+    rhs = LinearRhs(c, (lam,), "scalar")
+    log = []
+    exact = exact_root_stub(c, log)
+    state = dict(n=0)
+
+    def stub(f, x0, **kw):
+        state["n"] += 1
+        if state["n"] == 1:
+            K = c.uf("Kfail", [], int(np.prod(np.shape(x0))), fresh=True)
+            return c.array(K).reshape(np.shape(x0)), (False, 1, 1, 1, 1.0)
+        return exact(f, x0, **kw)
+    with patched(opt, "nonlinear_roots", stub):
+        st, r = run(integ, rhs, t, y, {}, h)
+    if st != "ok":
+        c.check("c11.call.returns_after_one_failed_solve", False, info=repr(r))
+        return
+    new_h, (dT, dY) = r
+    c.check("c11.call.retried_after_failed_solve", state["n"] >= 2, info=dict(solves=state["n"]))
+    if not log:
+        return
+    for rr in log[-1]["res"]:
+        c.assume(c.eq(rr, 0, 64))
+    y1 = y[0] + dY[0]
+    c.check("c11.call.accepted_step_keeps_direction_of_h", c.lt(0, dT * h), info=dict(cls=inst["cls"]))
+    c.check("c11.call.accepted_step_does_not_increase_modulus", c.le(y1 * y1, (1 + SLACK) * y[0] * y[0], 1), info=dict(cls=inst["cls"]))
+
+
 def scenario(c, inst):
     d = _data(inst["cls"])
     kind = inst["kind"]
+    if kind == "call_retry":
+        return _scn_call_retry(c, inst, d)
     if kind == "direct":
         return _scn_direct(c, inst, d)
     if kind == "axis_hb":
@@ -638,7 +685,7 @@ def replay(inst, witness, check_name):
     from srx.explorer import ConcreteCtx
     d = _data(inst["cls"])
     kind = inst["kind"]
-    if kind == "step":
+    if kind in ("step", "call_retry"):
         cc = ConcreteCtx(witness)
         scenario(cc, inst)
         return dict(reproduced=check_name in cc.failed, failed=sorted(set(cc.failed)), notes={k: repr(v)[:300] for k, v in cc.notes.items()})
